@@ -428,11 +428,13 @@ Exp_arith(fs, a) ==
 \* a.assign : Seq([name, e : expression]) ; a.copyall
 \* expression e : [t |-> "var", k] | [t |-> "int", v] | [t |-> "bin", op, l, r]
 \*              | [t |-> "where", c, x, y]   (all variables of one common shape)
+\*              | [t |-> "asarr", e]         (the plain-array view: same values)
 RECURSIVE EvalExpr(_, _, _)
 \* value of e at cell k : [m |-> masked?, v |-> rational]
 EvalExpr(f, e, k) ==
   CASE e.t = "var" -> LET v == VarRec(f, e.k) IN [m |-> v.mask[k], v |-> v.vals[k]]
     [] e.t = "int" -> [m |-> FALSE, v |-> RInt(e.v)]
+    [] e.t = "asarr" -> EvalExpr(f, e.e, k)
     [] e.t = "bin" -> LET x == EvalExpr(f, e.l, k) y == EvalExpr(f, e.r, k)
                       IN IF x.m \/ y.m THEN [m |-> TRUE, v |-> RInt(0)]
                          ELSE LET c == ArithCell(e.op, x.v, y.v) IN [m |-> ~c.ok, v |-> c.v]
@@ -442,6 +444,7 @@ EvalExpr(f, e, k) ==
 RECURSIVE ExprVars(_)
 ExprVars(e) == CASE e.t = "var" -> {e.k}
                  [] e.t = "int" -> {}
+                 [] e.t = "asarr" -> ExprVars(e.e)
                  [] e.t = "bin" -> ExprVars(e.l) \cup ExprVars(e.r)
                  [] e.t = "where" -> ExprVars(e.c) \cup ExprVars(e.x) \cup ExprVars(e.y)
 RECURSIVE ExprTotal(_)
@@ -452,6 +455,7 @@ ExprIsBool(e) == \/ (e.t = "bin" /\ e.op \in {"<", "<=", ">", ">=", "==", "!="})
                  \/ (e.t = "where" /\ (ExprIsBool(e.x) \/ ExprIsBool(e.y)))
 ExprTotal(e) == CASE e.t = "var" -> TRUE
                   [] e.t = "int" -> TRUE
+                  [] e.t = "asarr" -> ExprTotal(e.e)
                   [] e.t = "bin" -> /\ e.op \in {"+", "-", "*", "<", "<=", ">", ">=", "==", "!="}
                                     /\ ExprTotal(e.l) /\ ExprTotal(e.r)
                                     \* numpy booleans are not numbers: no arithmetic on comparison results
@@ -516,6 +520,7 @@ RECURSIVE ExprBound(_)
 ExprBound(e) ==
   CASE e.t = "var" -> 1000
     [] e.t = "int" -> AbsI(e.v)
+    [] e.t = "asarr" -> ExprBound(e.e)
     [] e.t = "bin" -> LET x == ExprBound(e.l) y == ExprBound(e.r) IN
                       IF e.op \in {"+", "-"} THEN Sat(x + y)
                       ELSE IF e.op = "*" THEN (IF x > 30000 \/ y > 30000 THEN 1000000000 ELSE Sat(x * y))
